@@ -431,7 +431,7 @@ theorem noB_num (b : UInt8) (hb : isDigit b = false) (g : Bytes) (h : IsNum g) :
 theorem parseHeader3 (g5 g6 g7 : Bytes) (h5 : IsNum g5) (h6 : IsNum g6) (h7 : IsNum g7) :
     Spec.Gfx.parseHeader (g5 ++ 44 :: (g6 ++ 120 :: g7)) =
       some (⟨Spec.Gfx.value g5, Spec.Gfx.value g6, Spec.Gfx.value g7, none⟩,
-        Spec.Gfx.short g5 && Spec.Gfx.short g6 && Spec.Gfx.short g7) := by
+        Spec.Gfx.fitsInt g5 && Spec.Gfx.fits32 g6 && Spec.Gfx.fits32 g7) := by
   unfold Spec.Gfx.parseHeader
   rw [splitOn_append 44 g5 _ (noB_num 44 (by decide) g5 h5), splitOn_noB 44 (g6 ++ 120 :: g7)
     (by simp [noB_append, noB_cons, noB_num 44 (by decide) g6 h6, noB_num 44 (by decide) g7 h7])]
@@ -443,7 +443,7 @@ theorem parseHeader5 (g5 g6 g7 g9 g10 : Bytes) (h5 : IsNum g5) (h6 : IsNum g6) (
     (h10 : IsNum g10) :
     Spec.Gfx.parseHeader (g5 ++ 44 :: (g6 ++ 120 :: (g7 ++ 44 :: (g9 ++ 44 :: g10)))) =
       some (⟨Spec.Gfx.value g5, Spec.Gfx.value g6, Spec.Gfx.value g7, some (Spec.Gfx.value g9, Spec.Gfx.value g10)⟩,
-        Spec.Gfx.short g5 && Spec.Gfx.short g6 && Spec.Gfx.short g7 && Spec.Gfx.short g9 && Spec.Gfx.short g10) := by
+        Spec.Gfx.fitsInt g5 && Spec.Gfx.fits32 g6 && Spec.Gfx.fits32 g7 && Spec.Gfx.fits32 g9 && Spec.Gfx.fits32 g10) := by
   unfold Spec.Gfx.parseHeader
   have e : g5 ++ 44 :: (g6 ++ 120 :: (g7 ++ 44 :: (g9 ++ 44 :: g10))) =
       g5 ++ 44 :: ((g6 ++ 120 :: g7) ++ 44 :: (g9 ++ 44 :: g10)) := by simp [List.append_assoc]
@@ -455,7 +455,9 @@ theorem parseHeader5 (g5 g6 g7 g9 g10 : Bytes) (h5 : IsNum g5) (h6 : IsNum g6) (
   simp [isNumber_of_num _ h5, isNumber_of_num _ h6, isNumber_of_num _ h7, isNumber_of_num _ h9,
     isNumber_of_num _ h10]
 
-theorem short_eq : Spec.Gfx.short = shortB := rfl
+theorem fits32_eq : Spec.Gfx.fits32 = u32B := rfl
+
+theorem fitsInt_eq : Spec.Gfx.fitsInt = intB := rfl
 
 theorem parse_of_shape (l : Bytes) (m : Sub) (h : Shape l m) : Spec.Gfx.parseLine l = some (chunkOf m) := by
   obtain ⟨hp, hv, ht, rhs, hrhs, rfl⟩ := h
@@ -489,18 +491,18 @@ theorem parse_of_shape (l : Bytes) (m : Sub) (h : Shape l m) : Spec.Gfx.parseLin
   cases hrhs with
   | simple g1 g2 g3 p h3 =>
     rw [cut_none 47 rhs (noB_num 47 (by decide) rhs h3)]
-    simp only [isNumber_of_num _ h3, if_true, chunkOf, atoiNat_num _ h3, splitOn_eq, short_eq]
+    simp only [isNumber_of_num _ h3, if_true, chunkOf, atoiNat_num _ h3, splitOn_eq, fits32_eq, fitsInt_eq]
     simp
   | hdr3 g1 g2 g3 g5 g6 g7 p h3 h5 h6 h7 =>
     rw [cut_first 47 g3 _ (noB_num 47 (by decide) g3 h3)]
     simp only [isNumber_of_num _ h3, if_true, parseHeader3 _ _ _ h5 h6 h7, chunkOf, atoiNat_num _ h3,
-      atoiNat_num _ h5, atoiNat_num _ h6, atoiNat_num _ h7, splitOn_eq, short_eq]
+      atoiNat_num _ h5, atoiNat_num _ h6, atoiNat_num _ h7, splitOn_eq, fits32_eq, fitsInt_eq]
     simp
   | hdr5 g1 g2 g3 g5 g6 g7 g9 g10 p h3 h5 h6 h7 h9 h10 =>
     rw [cut_first 47 g3 _ (noB_num 47 (by decide) g3 h3)]
     simp only [isNumber_of_num _ h3, if_true, parseHeader5 _ _ _ _ _ h5 h6 h7 h9 h10, chunkOf, atoiNat_num _ h3,
       atoiNat_num _ h5, atoiNat_num _ h6, atoiNat_num _ h7, atoiNat_num _ h9, atoiNat_num _ h10, splitOn_eq,
-      short_eq]
+      fits32_eq, fitsInt_eq]
     simp [Bool.and_assoc]
 
 end RawPanelVerif.Gfx
